@@ -764,7 +764,15 @@ def m_ptr_offset(it, args, fr, callee):
 
 @model('std::ptr::mut_ptr::is_null', 'std::ptr::const_ptr::is_null', 'core::ptr::mut_ptr::is_null', 'core::ptr::const_ptr::is_null')
 def m_is_null(it, args, fr, callee):
+    a = args[0]
+    if type(a) is Sc and isinstance(a.v, int) and a.v == 0:
+        return Sc('bool', 1)
     return Sc('bool', 0)
+
+
+@model('null_mut', 'null', 'std::ptr::null_mut', 'std::ptr::null', 'core::ptr::null_mut', 'core::ptr::null', 'ptr::null_mut', 'ptr::null')
+def m_null_ptr(it, args, fr, callee):
+    return Sc('usize', 0)
 
 
 @model('slice_from_raw_parts_mut', 'slice_from_raw_parts', 'std::ptr::slice_from_raw_parts_mut', 'std::ptr::slice_from_raw_parts',
@@ -1081,6 +1089,12 @@ def m_into_vec(it, args, fr, callee):
 
 @model('Box::new', 'std::boxed::Box::new')
 def m_box_new(it, args, fr, callee):
+    return BoxV(args[0])
+
+
+@model('Box::from_raw', 'std::boxed::Box::from_raw')
+def m_box_from_raw(it, args, fr, callee):
+    # ownership of the allocation behind the raw (fat) pointer returns to a Box; dropping it frees the buffer
     return BoxV(args[0])
 
 
